@@ -154,6 +154,35 @@ def run(ctx):
     ctx.only_callers('C18.r4', 'PendingTxs::fetch_transaction_hashes_for_broadcast',
                      {'<RelayProtocol as CKBProtocolHandler>::connected', '<RelayProtocol as CKBProtocolHandler>::notify'}, 2)
 
+    # the announced-to set of a pooled hash only grows while the hash is pooled
+    B = ctx.body('PendingTxs::push')
+    bdu = DefUse(B)
+    ins = P.call_sites(B, lambda k, t: k == 'LinkedHashMap::insert')
+    ctx.floor('C18.r4', 'pool insert in PendingTxs::push', len(ins), 1)
+    it = ins[0][1]
+    tup = [ob.rhs.strip() for (k, b, ob) in bdu.defs.get(int(re.findall(r'_(\d+)', it.args[2])[0]), []) if k == 'assign' and ob.rhs.strip().startswith('(')]
+    keeps = False
+    if len(tup) == 1:
+        parts = [x.strip() for x in tup[0][1:-1].split(', ')]
+        keeps = len(parts) == 3 and bdu.from_call(parts[2], lambda k: k in ('LinkedHashMap::remove', 'LinkedHashMap::get', 'LinkedHashMap::get_mut'))
+    ctx.ob('C18.r4', B.name, 'a (re)submitted transaction keeps the announced-to set of the entry it replaces', keeps, at=it.span)
+    allowed = {('insert', 'PendingTxs::fetch_transaction_hashes_for_broadcast'), ('new', 'PendingTxs::push'), ('clone', None), ('contains', None), ('len', None), ('is_empty', None), ('iter', None)}
+    nsites = 0
+    for b in P.bodies:
+        for bid, blk in b.blocks.items():
+            t = blk.term
+            if t.kind != 'call' or blk.cleanup:
+                continue
+            m = re.match(r'^(?:std::collections::)?HashSet::<(?:[\w:]*::)?PeerId(?:, [^>]*)?>::(\w+)', t.callee) or re.match(r'^<(?:std::collections::)?HashSet<(?:[\w:]*::)?PeerId(?:, [^>]*)?> as (\w+)>::(\w+)', t.callee)
+            if not m:
+                continue
+            meth = m.groups()[-1]
+            nsites += 1
+            owner = P.parent_fn(b).name if hasattr(P.parent_fn(b), 'name') else P.parent_fn(b)
+            ok = (meth, owner) in allowed or (meth, None) in allowed or meth in ('default', 'fmt', 'eq')
+            ctx.ob('C18.r4', b.name, 'HashSet<PeerId>::%s: the announced-to sets are only created (push) and grown (fetch_transaction_hashes_for_broadcast)' % meth, ok, at=t.span)
+    ctx.floor('C18.r4', 'HashSet<PeerId> call sites', nsites, 1)
+
     # r5 pending status
     G = ctx.body(GETTX)
     pend = []
